@@ -25,7 +25,8 @@ def tx_cases(ctx, tx, tag):
         raw = tx.to_bytes(tx.has_segwit)
     except Exception:
         return
-    yield Case(f'tx_parse {hx(raw)}', 'm', nontrivial=nt, tag=tag + '-parse')
+    # parsing also through the generated (translated) Transaction.from_raw / TxInput.from_raw / TxOutput.from_raw, interpreted
+    yield Case(f'tx_parse {hx(raw)}', 'gm' if len(raw) < 10000 else 'm', nontrivial=nt, tag=tag + '-parse')
     yield Case(f'tx_reser {hx(raw)}', 'ms', nontrivial=nt, tag=tag + '-reser',
                spec=lambda ans, raw=raw: (f's:echo {hx(raw)}', ans))
 
@@ -93,9 +94,9 @@ def cases(ctx):
     # malformed stream (ok/err only): truncations and garbage
     base = Transaction([TxInput('aa' * 32, 1, Script(['OP_1']))], [TxOutput(5, Script(['OP_DUP']))]).to_bytes(False)
     for cut in range(0, len(base)):
-        yield Case(f'tx_parse {hx(base[:cut])}', 'm', nontrivial=True, tag='truncated', domain=False)
+        yield Case(f'tx_parse {hx(base[:cut])}', 'gm' if cut < 10000 else 'm', nontrivial=True, tag='truncated', domain=False)
     for _ in range(ctx.n(100, 3000)):
-        yield Case(f'tx_parse {hx(G.rbytes(rng, rng.randrange(0, 120)))}', 'm', nontrivial=True, tag='garbage', domain=False)
+        yield Case(f'tx_parse {hx(G.rbytes(rng, rng.randrange(0, 120)))}', 'gm', nontrivial=True, tag='garbage', domain=False)
     # fixtures
     allfx = list(FX.all_txs())
     if ctx.thorough:
@@ -109,7 +110,7 @@ def cases(ctx):
         ctx.count('fixture-' + name)
         yield Case(f'tx_reser {hx(raw)}', 'ms', nontrivial=True, tag=f'fixture-{name}-{i}',
                    spec=lambda ans, raw=raw: (f's:echo {hx(raw)}', ans))
-        yield Case(f'tx_parse {hx(raw)}', 'm', nontrivial=True, tag=f'fixture-{name}-{i}')
+        yield Case(f'tx_parse {hx(raw)}', 'gm' if len(raw) < 10000 else 'm', nontrivial=True, tag=f'fixture-{name}-{i}')
         yield Case(f'fx_ids {hx(raw)}', 's', nontrivial=True, tag=f'fixture-{name}-{i}',
                    spec=lambda ans, t=t: (f's:echo {hx(t["txid"])} {hx(t["wtxid"])}', ans))
 
